@@ -92,18 +92,26 @@ def twosVal (bs : Bytes) : Int :=
   | [] => 0
   | b0 :: _ => if b0 &&& 0x80 == 0x80 then (natOfBE bs : Int) - (256 : Int) ^ bs.length else natOfBE bs
 
-/-- `asn1Signed`: at most 8 bytes; shift-in then sign-extend = two's-complement value -/
-def asn1Signed (bs : Bytes) : Option Int :=
-  if bs.length > 8 then none else some (twosVal bs)
+/-- the loop shared by asn1Signed / asn1Unsigned, on a 64-bit word: `*out <<= 8; *out |= n[i]` -/
+def shiftIn (n : Bytes) : BitVec 64 :=
+  n.foldl (fun a b => (a <<< 8) ||| BitVec.ofNat 64 b.toNat) 0#64
 
-/-- `asn1Unsigned` (called on non-empty `bs`): at most 8 significant bytes, non-negative -/
+/-- `asn1Signed` as written: at most 8 bytes, shift them in, then `<<= 64-8·len` and the arithmetic
+    `>>= 64-8·len` to sign-extend (`uint8(length)*8` does not wrap for length ≤ 8) -/
+def asn1Signed (bs : Bytes) : Option Int :=
+  if bs.length > 8 then none else
+  let s := 64 - bs.length * 8
+  some (((shiftIn bs) <<< s).sshiftRight s).toInt
+
+/-- `asn1Unsigned` as written (called on non-empty `bs`): at most 9 bytes, the ninth only as a leading
+    zero; a set top bit means negative; then the same shift-in loop on a uint64 -/
 def asn1Unsigned (bs : Bytes) : Option Nat :=
   match bs with
   | [] => none          -- Go would index n[0] and panic; unreachable after checkASN1Integer
   | b0 :: _ =>
     if bs.length > 9 || (bs.length == 9 && b0 != 0) then none else
     if b0 &&& 0x80 != 0 then none else
-    some (natOfBE bs)
+    some (shiftIn bs).toNat
 
 /-- the INTEGER (or `tag`) contents after the minimality check -/
 def readIntBody (tag : UInt8) (s : Bytes) : Option (Bytes × Bytes) :=
@@ -243,6 +251,12 @@ def readOptionalBool (dflt : Bool) (tag : UInt8) (s : Bytes) : Option (Bool × B
   | some (true, b, r) => (readBool b).map fun (v, _) => (v, r)
   | none => none
 
+/-- what the C23 statement asks of ReadOptionalASN1Boolean (an EXPLICIT wrapper holds exactly one TLV):
+    like the INTEGER / OCTET STRING variants, the wrapper's contents must be consumed completely.
+    The driver answers with this one; the code as written is `readOptionalBool` (KNOWN-FINDING). -/
+def readOptionalBoolDER (dflt : Bool) (tag : UInt8) (s : Bytes) : Option (Bool × Bytes) :=
+  readOptionalWith readBool dflt tag s
+
 /-- `ReadOptionalASN1OctetString`: (present, octets, rest) -/
 def readOptionalOctets (tag : UInt8) (s : Bytes) : Option (Bool × Bytes × Bytes) :=
   match readOptional tag s with
@@ -317,5 +331,14 @@ def addOID (oid : List Int) : Option Bytes :=
     if oid.any (· < 0) then none else
     addASN1 6 (addBase128 (wrap64 (a * 40 + b)) ++ (rest.map addBase128).flatten)
   | _ => none
+
+
+/-- what the C23 statement asks of AddASN1ObjectIdentifier: `40*a + b` must not overflow int64 (the code as
+    written, `addOID`, wraps, `addBase128Int` of the negative result emits nothing, and `06 00` comes out
+    without an error).  The driver answers with this one (KNOWN-FINDING). -/
+def addOIDDER (oid : List Int) : Option Bytes :=
+  match oid with
+  | a :: b :: _ => if a * 40 + b ≥ 2 ^ 63 then none else addOID oid
+  | _ => addOID oid
 
 end XC.C23
